@@ -33,6 +33,7 @@
 (***************************************************************************)
 EXTENDS FoInfer
 
+CONSTANT RecField(_, _)  \* RecField(rt, f): the type of field f of the record instance rt; NOREC if rt is not a (known) record, PANIC if it has no such field
 CONSTANT Deviations      \* {} = the implementation; deviations for non-vacuity, see FoResolverMC
 VARIABLE ord             \* sequence of all variable names, alphabetically ascending (fixed during a behaviour; explored over all orders)
 
@@ -40,7 +41,13 @@ Pos(x) == CHOOSE i \in 1..Len(ord) : ord[i] = x
 Later(x, y) == Pos(x) > Pos(y)                    \* tv.Name > tv2.Name
 Rel(x, t) == [src |-> x, dest |-> t]
 PANIC == <<"panic">>
-IsPanic(t) == t = PANIC
+IsPanic(t) == t[1] = "panic"
+
+NOREC == <<"norec">>
+\* faResolve: the field's type once the record type is known, else the access stays a type of its own <<"fa", rectype, field>>
+FaResolve(rt, f) ==
+  IF rt[1] = "named" THEN (LET ft == RecField(rt, f) IN IF ft = NOREC THEN <<"fa", rt, f>> ELSE ft)
+  ELSE <<"fa", rt, f>>
 
 \* compositeTp: [t |-> adopted type, rels |-> relations, panic |-> BOOLEAN]
 R(t, rels) == [t |-> t, rels |-> rels, panic |-> FALSE]
@@ -62,7 +69,22 @@ CompositeTp(l, r) ==
   ELSE IF IsVar(r) THEN R(l, <<Rel(r[2], l)>>)
   ELSE CASE r[1] = "slice" ->
               IF l[1] = "slice" THEN (LET c == CompositeTp(l[2], r[2]) IN [t |-> <<"slice", c.t>>, rels |-> c.rels, panic |-> c.panic])
+              ELSE IF l[1] = "fa" THEN R(r, <<>>)             \* "[]T1 = FA(T2, xx) ... just give up for this case"
               ELSE Boom                                       \* "right is slice, left is neither slice nor field access."
+         [] r[1] = "fa" ->
+              LET r2 == FaResolve(r[2], r[3]) IN
+              IF IsPanic(r2) THEN Boom
+              ELSE IF r2[1] # "fa" THEN CompositeTp(l, r2)    \* resolved, try the resolved type again
+              ELSE IF l[1] = "fa"
+                   THEN LET l2 == FaResolve(l[2], l[3]) IN
+                        IF IsPanic(l2) THEN Boom
+                        ELSE IF l2[1] # "fa" THEN CompositeTp(l2, r)
+                        ELSE IF l[3] = r[3] \/ "FaAnyField" \in Deviations   \* the same field: the two record types are taken to be one (fix 778819f: only then)
+                             THEN (LET c == CompositeTp(l[2], r[2])
+                                       ft == FaResolve(c.t, l[3])
+                                   IN IF IsPanic(ft) THEN Boom ELSE [t |-> ft, rels |-> c.rels, panic |-> c.panic])
+                             ELSE R(l, <<>>)
+                   ELSE R(l, <<>>)                            \* FA(T, xx) against anything else: ignored
          [] r[1] = "func" ->
               IF l[1] = "func" /\ Len(l[2]) = Len(r[2])
               THEN (LET c == CompositeList(Append(l[2], l[3]), Append(r[2], r[3]))
@@ -81,26 +103,88 @@ CompositeTp(l, r) ==
          [] OTHER -> R(l, <<>>)                               \* "both type is concrete": no comparison at all
 
 ---------------------------------------------------------------------------
+(* resolveOneTypeVarIn / resolveType: substitute class types recursively; a variable met again on its own path is an infinite type *)
+\* type variables that occur (field-access types included)
+RECURSIVE RVars(_)
+RVarsSeq(ts) == UNION {RVars(ts[i]) : i \in 1..Len(ts)}
+RVars(t) ==
+  CASE t[1] = "var"   -> {t[2]}
+    [] t[1] \in {"base", "unit", "panic"} -> {}
+    [] t[1] = "slice" -> RVars(t[2])
+    [] t[1] = "tuple" -> RVarsSeq(t[2])
+    [] t[1] = "func"  -> RVarsSeq(t[2]) \cup RVars(t[3])
+    [] t[1] = "named" -> RVarsSeq(t[3])
+    [] t[1] = "fa"    -> RVars(t[2])
+IsRecord(rt) == rt[1] = "named" /\ RecField(rt, "") # NOREC
+
+\* follow a variable to the type of its class WITHOUT translating that type: [t |-> a variable or the class type, path |-> variables passed]
+RECURSIVE Shallow(_, _, _)
+Shallow(e, t, path) ==
+  IF t[1] # "var" THEN [t |-> t, path |-> path]
+  ELSE LET cand == IF t[2] \in DOMAIN e THEN e[t[2]].res ELSE t IN
+       IF t[2] \in path \/ cand = t THEN [t |-> (IF IsRecord(cand) THEN cand ELSE t), path |-> path]
+       ELSE Shallow(e, cand, path \cup {t[2]})
+
+RECURSIVE Resolve(_, _, _)
+ResolveSeq(e, ts, path) == [i \in 1..Len(ts) |-> Resolve(e, ts[i], path)]
+AnyPanic(ts) == \E i \in 1..Len(ts) : IsPanic(ts[i])
+Resolve(e, t, path) ==
+  CASE t[1] = "var" ->
+         LET cand == IF t[2] \in DOMAIN e THEN e[t[2]].res ELSE t IN
+         IF "OldCycleRule" \in Deviations
+         THEN (IF t[2] \in path THEN PANIC ELSE IF cand = t THEN t ELSE Resolve(e, cand, path \cup {t[2]}))     \* before the fix: any variable met again on its own path
+         ELSE IF t[2] \in path
+              THEN (IF IsRecord(cand) THEN cand ELSE t)       \* cut the cycle here; a record keeps its shape so that a field access on it can still be projected
+              ELSE IF cand = t THEN t
+              ELSE LET r == Resolve(e, cand, path \cup {t[2]}) IN
+                   IF IsPanic(r) THEN PANIC
+                   ELSE IF r[1] # "var" /\ t[2] \in RVars(r) THEN PANIC       \* "Infinite (self referential) type is inferred."
+                   ELSE r
+    [] t[1] \in {"base", "unit"} -> t
+    [] t[1] = "slice" -> LET x == Resolve(e, t[2], path) IN IF IsPanic(x) THEN PANIC ELSE <<"slice", x>>
+    [] t[1] = "tuple" -> LET xs == ResolveSeq(e, t[2], path) IN IF AnyPanic(xs) THEN PANIC ELSE <<"tuple", xs>>
+    [] t[1] = "func"  -> LET xs == ResolveSeq(e, t[2], path)
+                             x == Resolve(e, t[3], path)
+                         IN IF AnyPanic(xs) \/ IsPanic(x) THEN PANIC ELSE <<"func", xs, x>>
+    [] t[1] = "named" -> LET xs == ResolveSeq(e, t[3], path) IN IF AnyPanic(xs) THEN PANIC ELSE <<"named", t[2], xs>>
+    [] t[1] = "fa"    ->
+         \* transTVFType: resolve the record type (transRecType translates the fields of the instance found with the same resolution),
+         \* then faResolve - i.e. the resolved type of field F of the record instance at the end of the variable chain
+         LET s == Shallow(e, t[2], path) IN
+         IF IsRecord(s.t)
+         THEN (LET ft == RecField(s.t, t[3]) IN IF IsPanic(ft) THEN PANIC ELSE Resolve(e, ft, s.path))
+         ELSE (LET x == Resolve(e, t[2], path) IN IF IsPanic(x) THEN PANIC ELSE FaResolve(x, t[3]))
+
+
 \* rsLookupEI: the class of a name, a fresh singleton class if it is not registered
 LookupIn(e, x) == IF x \in DOMAIN e THEN e[x] ELSE [eset |-> {x}, res |-> V(x)]
 \* rsRegisterNewEI: every member of the class points to the new info
 Register(e, ei) == [y \in (DOMAIN e) \cup ei.eset |-> IF y \in ei.eset THEN ei ELSE e[y]]
 
 \* updateResOne as a function of the resolver e and one relation: [eid |-> resolver after, rels |-> relations returned, panic]
-StepRel(e, rel) ==
-  LET ei1 == LookupIn(e, rel.src) IN
-  IF IsVar(rel.dest)
-  THEN LET ei2 == LookupIn(e, rel.dest[2])
-           c == CompositeTp(ei1.res, ei2.res)                                  \* eiUnion
-           nei == [eset |-> ei1.eset \cup ei2.eset, res |-> c.t]
+\* the type of a class that is still "field F of a record to be known" is looked at through the resolver: by now the record may be known
+\* the type of a class (or a destination) that is still "field F of a record to be known" is looked at through the resolver:
+\* by now the record may be known (resolveType; an infinite type found on the way is reported)
+ViaResolver(e, t) == IF t[1] = "fa" /\ "FaKeepsClass" \notin Deviations THEN Resolve(e, t, {}) ELSE t
+StepRel(e, rel0) ==
+  LET dest == ViaResolver(e, rel0.dest)
+      l1 == LookupIn(e, rel0.src)
+      res1 == ViaResolver(e, l1.res)
+      ei1 == [l1 EXCEPT !.res = res1] IN
+  IF IsPanic(dest) \/ IsPanic(res1) THEN [eid |-> e, rels |-> <<>>, panic |-> TRUE]
+  ELSE IF IsVar(dest)
+  THEN LET l2 == LookupIn(e, dest[2])
+           res2 == ViaResolver(e, l2.res)
+           c == IF IsPanic(res2) THEN Boom ELSE CompositeTp(res1, res2)         \* eiUnion
+           nei == [eset |-> l1.eset \cup l2.eset, res |-> c.t]
        IN [eid |-> IF c.panic THEN e
                    ELSE IF "RegisterPairOnly" \in Deviations
-                        THEN Register(e, [nei EXCEPT !.eset = {rel.src, rel.dest[2]}])       \* only the two named members see the merged class
+                        THEN Register(e, [nei EXCEPT !.eset = {rel0.src, dest[2]}])       \* only the two named members see the merged class
                         ELSE Register(e, nei),
            rels |-> IF "DropUnionRels" \in Deviations THEN <<>> ELSE c.rels,
            panic |-> c.panic]
-  ELSE LET c == CompositeTp(ei1.res, rel.dest)                                 \* eiUpdateResT
-           nei == [eset |-> ei1.eset, res |-> c.t]
+  ELSE LET c == CompositeTp(res1, dest)                                        \* eiUpdateResT
+           nei == [eset |-> l1.eset, res |-> c.t]
        IN [eid |-> IF c.panic \/ c.rels = <<>> THEN e ELSE Register(e, nei),     \* not re-registered when nothing came back
            rels |-> IF "DropUpdateRels" \in Deviations THEN <<>> ELSE c.rels,
            panic |-> c.panic]
@@ -137,24 +221,6 @@ NextRound ==
 
 RNext == UpdateResOne \/ NextRound
 BatchDone == round = <<>> /\ produced = <<>>
-
----------------------------------------------------------------------------
-(* resolveOneTypeVarIn / resolveType: substitute class types recursively; a variable met again on its own path is an infinite type *)
-RECURSIVE Resolve(_, _, _)
-ResolveSeq(e, ts, path) == [i \in 1..Len(ts) |-> Resolve(e, ts[i], path)]
-AnyPanic(ts) == \E i \in 1..Len(ts) : IsPanic(ts[i])
-Resolve(e, t, path) ==
-  CASE t[1] = "var" ->
-         IF t[2] \in path THEN PANIC                                  \* "Infinite (self referential) type is inferred."
-         ELSE LET cand == IF t[2] \in DOMAIN e THEN e[t[2]].res ELSE t
-              IN IF cand = t THEN t ELSE Resolve(e, cand, path \cup {t[2]})
-    [] t[1] \in {"base", "unit"} -> t
-    [] t[1] = "slice" -> LET x == Resolve(e, t[2], path) IN IF IsPanic(x) THEN PANIC ELSE <<"slice", x>>
-    [] t[1] = "tuple" -> LET xs == ResolveSeq(e, t[2], path) IN IF AnyPanic(xs) THEN PANIC ELSE <<"tuple", xs>>
-    [] t[1] = "func"  -> LET xs == ResolveSeq(e, t[2], path)
-                             x == Resolve(e, t[3], path)
-                         IN IF AnyPanic(xs) \/ IsPanic(x) THEN PANIC ELSE <<"func", xs, x>>
-    [] t[1] = "named" -> LET xs == ResolveSeq(e, t[3], path) IN IF AnyPanic(xs) THEN PANIC ELSE <<"named", t[2], xs>>
 
 \* the relations of a constraint system: unifyType on each pair, concatenated in program order (collectLfdRels)
 RECURSIVE RelsOf(_)
